@@ -310,6 +310,10 @@ class Simulation:
                 "the process stack."
             )
         self.env.run(until=until)
+        # As in start(): hand over the events of the last timestep, so that
+        # a paused-and-resumed run reports the same event log as an
+        # uninterrupted one.
+        self.monitor.collate_events()
 
     def is_finished(self):
         """
